@@ -2,13 +2,14 @@
 from __future__ import annotations
 
 import os
+import ast
 import re
 
 from vlib import metagram
 from vlib.core import REPO, AnalysisError, Report
 from vlib.match import X, atoms, concat_parts, deref, inline_predicates, nodes
 from vlib.srcindex import const_str
-from vlib.srcindex import SourceIndex, attr_chain
+from vlib.srcindex import SourceIndex, attr_chain, unparse
 
 LEVEL = 'translation_validation'
 EXPLANATION = (
@@ -263,6 +264,8 @@ def run(rep: Report, tier: str) -> None:
 	rule_codec(rep, idx)
 	rule_groups(rep, idx, gram_rules_by)
 	rule_terminal_lexing(rep, idx)
+	rule_engine_state(rep, idx)
+	rule_renderer_escapes(rep, idx)
 	rep.extra_coverage['programs'] = len(sync.obligations)
 	rep.extra_coverage['disagreements_checked'] = sum(1 for o in sync.obligations if o.status == 'violated')
 
@@ -284,3 +287,58 @@ def rule_terminal_lexing(rep: Report, idx) -> None:
 				r.skip(o.key, (o.file, o.line), o.message)
 			else:
 				r.ok(o.key, (o.file, o.line))
+
+
+def rule_engine_state(rep: Report, idx) -> None:
+	"""`from_ast(parse(pretty(g))) == g` for every g, and the two fixed points, in ONE process: the meta-grammar rules, the Python rules and any generated
+	rule set are separate Rules objects. State of the engine classes that is shared between instances or survives a parse (a class-level Memoize keyed
+	by 'keywords', a mutable default, a module-level container) makes the keywords / routes of one rule set answer for another. The inventory is C04's;
+	here the entries of the engine package count."""
+	from checks import c04
+	r = rep.rule('C12/engine-state-per-rule-set', 'the classes of rogw/tranp/implements/syntax/tranp hold no object constructed in a class body, no mutated class-/module-level container and no mutable default (shared with C04/global-state-inventory)', floor=1)
+	scratch = Report('C04', rep.tier)
+	c04.rule_c(scratch, idx)
+	n_ = 0
+	for rule in scratch.rules:
+		for o in rule.obligations:
+			if 'rogw/tranp/implements/syntax/tranp/' not in o.key and 'data/syntax/' not in o.key:
+				continue
+			n_ += 1
+			if o.status == 'violated':
+				r.violate(o.key, (o.file, o.line), o.message, o.fragment)
+			else:
+				r.ok(o.key, (o.file, o.line))
+	if n_ == 0:
+		r.ok('engine-package-clean', None, message='no class-level object, mutated shared container or mutable default in the engine package')
+
+
+def rule_renderer_escapes(rep: Report, idx) -> None:
+	"""gram_check -o writes the rule module as Python source: every token text becomes a single-quoted literal. The text must be escaped per token
+	(backslashes doubled, quote characters escaped) before it is wrapped in its delimiters. Substituting on the whole pretty-printed tree cannot tell
+	a quote inside a token from the delimiters around it: a terminal containing a bare `'` (`q := "'"`, `/[a-z']+/`) renders to a module that is not
+	valid Python, so that grammar has no compiled form at all."""
+	r = rep.rule('C12/rule-module-escapes-per-token', 'the renderer of the rule module escapes backslashes and quote characters of each token text before delimiting it, not by substitution over the pretty-printed tree', floor=1)
+	gc = idx.mod('rogw/tranp/bin/gram_check.py')
+	rr = gc.func('App.render_rules')
+	if rr is None:
+		r.skip('render_rules', (gc.relpath, 1), 'App.render_rules vanished')
+		return
+	whole_tree = []
+	for n in ast.walk(rr.node):
+		if isinstance(n, ast.Call) and isinstance(n.func, ast.Attribute) and n.func.attr in ('split', 'replace') and n.args and isinstance(n.args[0], ast.Constant) and isinstance(n.args[0].value, str) and set(n.args[0].value) & set("\\'"):
+			recv = n.func.value
+			names = {x.id for x in ast.walk(recv) if isinstance(x, ast.Name)}
+			# the receiver is the rendered text of the WHOLE tree (derived from tree.pretty(...)), not one token's text
+			derived = {t.id for st in ast.walk(rr.node) if isinstance(st, ast.Assign) for t in st.targets if isinstance(t, ast.Name) and any(isinstance(c_, ast.Call) and isinstance(c_.func, ast.Attribute) and c_.func.attr == 'pretty' for c_ in ast.walk(st.value))}
+			changed = True
+			while changed:
+				changed = False
+				for st in ast.walk(rr.node):
+					if isinstance(st, ast.Assign):
+						for t in st.targets:
+							if isinstance(t, ast.Name) and t.id not in derived and {x.id for x in ast.walk(st.value) if isinstance(x, ast.Name)} & derived:
+								derived.add(t.id)
+								changed = True
+			if names & derived:
+				whole_tree.append(n)
+	r.check(not whole_tree, 'render_rules:escapes-per-token', rr.where, f'App.render_rules fixes the escapes with `{unparse(whole_tree[0])[:70] if whole_tree else ""}` on the text of the whole pretty-printed tree: a `\'` inside a token is indistinguishable from the delimiters, so a terminal containing a bare single quote renders to a module that does not compile', unparse(whole_tree[0])[:100] if whole_tree else '')
